@@ -27,8 +27,10 @@ package main
 // The analysis is syntactic (go/ast) with go/types used ONLY to resolve identifiers, field owners and method
 // receivers of package-local types; imports are replaced by empty packages (no dependence on the
 // environment), type errors caused by that are ignored.  Unsupported shapes fail the generation (fail closed):
-// a Lock/Unlock that is not a top-level statement of a function body, a `go` statement, a mutex that is not a
-// struct field of type sync.Mutex / sync.RWMutex.
+// a Lock()/RLock() whose matching Unlock()/RUnlock() is not a statement of the same block (function body, or
+// the body of an if/else/for/case/bare block: block-local critical sections are fine) and, in a function body,
+// is not deferred either; a `defer ...Unlock()` inside a nested block or loop; a `go` statement; a mutex that
+// is not a struct field of type sync.Mutex / sync.RWMutex.
 
 import (
 	"fmt"
@@ -411,6 +413,7 @@ func (g *lkGen) walkBody(fn *lkFunc, body ast.Node, top *ast.BlockStmt, sig *ast
 		params: map[types.Object]bool{}, inlineObj: map[types.Object]bool{}}
 	w.addParams(sig)
 	w.classifyLits(body)
+	w.markNested(body)
 	if top != nil {
 		w.markTop(top)
 	}
@@ -430,17 +433,99 @@ func (g *lkGen) walkBody(fn *lkFunc, body ast.Node, top *ast.BlockStmt, sig *ast
 	}
 }
 
-func (w *lkWalk) markTop(b *ast.BlockStmt) {
-	for _, st := range b.List {
+func (w *lkWalk) markTop(b *ast.BlockStmt) { w.markList(b.List, true) }
+
+// lockCall: c is `<expr>.<mutex field>.Lock|RLock|Unlock|RUnlock()`
+func (w *lkWalk) lockCall(c *ast.CallExpr) (mu, op string, ok bool) {
+	se, isSel := c.Fun.(*ast.SelectorExpr)
+	if !isSel {
+		return "", "", false
+	}
+	switch se.Sel.Name {
+	case "Lock", "RLock", "Unlock", "RUnlock":
+	default:
+		return "", "", false
+	}
+	mu, _, ok = w.mutexOf(se.X)
+	return mu, se.Sel.Name, ok
+}
+
+// markList accepts the lock operations of ONE statement list (function body, or the body of an if/else/for/
+// case/bare block).  A Lock()/RLock() is accepted when its matching Unlock()/RUnlock() is a later statement of
+// the SAME list (the critical section is local to the block: everything between them, at any depth, is walked
+// with the mutex held), or -- in a function body only -- when a `defer Unlock()` of that mutex is a statement of
+// the body.  An Unlock() is accepted when it is matched in this way.  Everything else (Lock in one branch and
+// Unlock elsewhere, Lock in a nested block that is released by a defer or not at all, defer in a loop) stays
+// unaccepted and makes lockOp fail the generation.
+func (w *lkWalk) markList(list []ast.Stmt, top bool) {
+	type lk struct {
+		c      *ast.CallExpr
+		mu, op string
+		used   bool
+	}
+	var ops, defers []*lk
+	for _, st := range list {
 		switch s := st.(type) {
 		case *ast.ExprStmt:
 			if c, ok := s.X.(*ast.CallExpr); ok {
-				w.okLock[c] = true
+				if mu, op, ok := w.lockCall(c); ok {
+					ops = append(ops, &lk{c: c, mu: mu, op: op})
+				}
 			}
 		case *ast.DeferStmt:
-			w.okLock[s.Call] = true
+			if mu, op, ok := w.lockCall(s.Call); ok {
+				if top && (op == "Unlock" || op == "RUnlock") {
+					// a deferred unlock without its Lock() is accepted too: the table then shows the
+					// accesses with nothing held and the obligations name them
+					w.okLock[s.Call] = true
+					defers = append(defers, &lk{c: s.Call, mu: mu, op: op})
+				}
+			}
 		}
 	}
+	closes := map[string]string{"Lock": "Unlock", "RLock": "RUnlock"}
+	for i, a := range ops {
+		want, isLock := closes[a.op]
+		if !isLock {
+			continue
+		}
+		for _, b := range ops[i+1:] {
+			if !b.used && b.mu == a.mu && b.op == want {
+				a.used, b.used = true, true
+				w.okLock[a.c], w.okLock[b.c] = true, true
+				break
+			}
+		}
+		if !a.used {
+			for _, d := range defers {
+				if d.mu == a.mu && d.op == want {
+					a.used = true
+					w.okLock[a.c] = true
+					break
+				}
+			}
+		}
+	}
+}
+
+// markNested accepts block-local critical sections in every nested statement list of body.
+func (w *lkWalk) markNested(body ast.Node) {
+	litBody := map[*ast.BlockStmt]bool{}
+	ast.Inspect(body, func(n ast.Node) bool {
+		switch x := n.(type) {
+		case *ast.FuncLit:
+			litBody[x.Body] = true // function bodies are handled by markTop when they are walked
+		case *ast.BlockStmt:
+			if !litBody[x] && ast.Node(x) != body {
+				w.markList(x.List, false)
+			}
+		case *ast.CaseClause:
+			w.markList(x.Body, false)
+		case *ast.CommClause:
+			w.markList(x.Body, false)
+		}
+		return true
+	})
 }
 
 // classifyLits decides which function literals escape (stored / returned) and which are run by the
@@ -592,7 +677,7 @@ func (w *lkWalk) lockOp(c *ast.CallExpr, deferred bool) bool {
 		return true
 	}
 	if !w.okLock[c] {
-		w.g.fail(c.Pos(), "%s.%s() is not a top-level statement of its function: conditional locking is not supported", mu, op)
+		w.g.fail(c.Pos(), "%s.%s() has no matching %s as a statement of the same block (nor, in a function body, a deferred one): conditional locking is not supported", mu, op, map[string]string{"Lock": "Unlock()", "RLock": "RUnlock()", "Unlock": "Lock()", "RUnlock": "RLock()"}[op])
 		return true
 	}
 	if (op == "RLock" || op == "RUnlock") && !rw {
